@@ -71,6 +71,8 @@ CORE_SMILES = [
     'CC(O)=O.CC[O-]', 'Oc1ccccc1.[OH-]', 'OC(=O)CCC([O-])=O', 'CC(O)=O.C[NH3+]', 'Cl.CC[O-]',                  # acid next to a base (rule-table driven proton moves)
     'CN.Cl', 'C[NH3+].[Cl-]', 'CC(O)=O.CN', 'COC=O.CN', 'CCN.CC([O-])=O', 'CCN(CC)CC.OC(=O)C=CC(O)=O',         # twin counter-ions: same composition, acid / anion / isomer
     'CCN(CC)CC.OC(=O)C(=C)C(O)=O', 'CCO.CN', 'CCCC[O-]', 'C[N+](C)(C)CCO.[Cl-]', 'OC(=O)C',                    # ... and atoms of one kind with / without charge
+    'Cn1cc[n+](CC)c1', 'Cc1cc[nH+][nH]1', 'CC[n+]1cc[nH]c1C', 'C[n+]1ccn(C(C)C)c1', 'Cn1cc[n+](C)c1',          # charged azoles: the charge can sit on either nitrogen
+    'c1cc[nH+]cc1.CC([O-])=O', 'C[N+]1=CC=CC=C1', 'NC(N)=[NH2+]', 'CC(N)=[NH2+]',                              # (standardize_charges decides by atom order)
 ]
 _CORE_SET = set(CORE_SMILES)
 # molecules that are observed (and copied) only after an in-place normaliser ran on them, and objects derived from a molecule
@@ -94,6 +96,8 @@ RXN_SMILES = ['CCO.CC(=O)O>>CC(=O)OCC.O', '[CH3:1][CH2:2][OH:3].[CH3:4][C:5](=[O
               '[Na+].[OH-].CCl>>CO.[Na+].[Cl-]', 'C[C@H](O)C(=O)O>>C[C@@H](O)C(=O)O', 'C/C=C/C.BrBr>>C[C@H](Br)[C@@H](C)Br',
               'CC#N.O>>CC(N)=O', 'c1ccncc1.CI>>C[n+]1ccccc1.[I-]', 'O=C1CCCCC1.NO>>ON=C1CCCCC1.O', 'CCBr.[Mg]>>CC[Mg]Br',
               'C1CC1.[H][H]>>CCC', 'N#N.[H][H].[H][H].[H][H]>>N.N',
+              '[Na+:1].[K+:2].[Cl-:3].[Cl-:4]>>[Na+:1].[Cl-:3].[K+:2].[Cl-:4]', '[Li+].[Na+].[K+].[F-].[F-].[F-]>>CC',     # several kinds of cations, one kind of anions
+              '[Na+].[Na+].[Cl-].[Br-]>>CC.[K+].[K+].[I-].[F-]', '[NH4+].[K+].[O-]C(C)=O.[O-]C(C)=O.CCO>>CC(=O)OCC',
               'C[CH2].[H][H]>>CC', '[CH3].[CH3]>>CC', 'CC[O]>>CC=O', 'C[CH]C.ClCl>>CC(Cl)C.[Cl]',     # radical members (CXSMILES block)
               '[CH3:1][CH2:2][OH:3].[CH3:4][C:5](=[O:6])[OH:7].[Na+].[Cl-].[K+].O>>[CH3:4][C:5](=[O:6])[O:3][CH2:2][CH3:1].[OH2:7]',
               'CCO.CC(O)=O.O.[Na+].[Cl-].ClCCl>>CC(=O)OCC.O.[Na+].[Cl-].ClCCl',      # several molecules become reagents at once
